@@ -170,6 +170,7 @@ pub fn v2_universes(tier: Tier) -> Vec<Box<dyn Universe>> {
         }),
         Box::new(u2::sig_universe_with(tier == Tier::Thorough)),
         Box::new(u2::addr_universe()),
+        Box::new(u2::anybyte_universe()),
         Box::new(u2::byte_universe(tier.pick(4, 6))),
     ]
 }
